@@ -95,7 +95,8 @@ func VrfC02Worker() {
 	ctx, cancel := context.WithCancel(context.Background())
 	cfg := &Config{}
 	cfg.Batching = BatchingConfig{MaxBatchSize: maxSize, MaxBatchAge: vrfMaxAgeMS * time.Millisecond, MaxQueueSize: queue}
-	css := &Consensus{ctx: ctx, cancel: cancel, config: cfg, batchingState: bs,
+	// (state = the committed view of the same store: nothing of the open batch is in it)
+	css := &Consensus{ctx: ctx, cancel: cancel, config: cfg, batchingState: bs, state: bs,
 		batchItemCh: make(chan batchItem, queue)}
 	go css.batchWorker()
 	vrf_yield()
@@ -212,7 +213,7 @@ func VrfC02Age() {
 	ctx, cancel := context.WithCancel(context.Background())
 	cfg := &Config{}
 	cfg.Batching = BatchingConfig{MaxBatchSize: 100, MaxBatchAge: time.Duration(age), MaxQueueSize: 10}
-	css := &Consensus{ctx: ctx, cancel: cancel, config: cfg, batchingState: bs, batchItemCh: make(chan batchItem, 10)}
+	css := &Consensus{ctx: ctx, cancel: cancel, config: cfg, batchingState: bs, state: bs, batchItemCh: make(chan batchItem, 10)}
 	go css.batchWorker()
 	vrf_yield()
 	var t int64
